@@ -188,6 +188,18 @@ def runHistNR (F : FloatOps) (D : DiffOps) : NState → List RoundNR → NState
   | st, [] => st
   | st, r :: rest => runHistNR F D (reconcileNR F D r.thr r.interval r.now st r.nr).1 rest
 
+/-- batchresource PreUpdate → prepareForNodeResourceTopology → UpdateNRTZoneListIfNeeded on the per-zone batch amounts
+    (cpu, memory) stored in the NodeResourceTopology object.  `zcalc` = nr.ZoneResources (`none`: the empty map — degraded,
+    disabled, or no zone resources reported).  With calculated zone amounts they are merged into the stored ones by the
+    diff-threshold / sync-interval rule `upd` (not modelled: a parameter).  Without: the early return is taken ONLY when
+    the batch items are not Reset; on Reset every zone misses in the empty map and is written back as zero
+    (repaired by 437c681: the early return ignored Resets and the zeroing wrote to a range copy). -/
+def preUpdateZones (upd : List (Int × Int) → List (Int × Int) → List (Int × Int)) (resetB : Bool)
+    (zcalc : Option (List (Int × Int))) (old : List (Int × Int)) : List (Int × Int) :=
+  match zcalc with
+  | some new => upd old new
+  | none => if resetB then old.map (fun _ => (0, 0)) else old
+
 /-! the seeded variant, kept for the counterexample only: amplification written through the stored pointer
     (`*q = MultiplyMilliQuant(*q, ratio)`), then rounded in place. -/
 def prepareStoredInPlace (F : FloatOps) (amp : Option Int) (q : Option Int) (reset : Bool) : Ext × Option Int :=
